@@ -7,6 +7,6 @@ if [[ "$P" == *.py ]]; then python3 "$P" || { git checkout -- .; exit 9; }; else
 git diff --stat | tail -1
 cd /verif
 for pid in "$@"; do
-  /venv/bin/python -m gverif.run "$pid" --tier "${TIER:-quick}" 2>&1 | grep -E "VIOLATION|KNOWN-FINDING|HARNESS-ERROR|tier=" | head -${LINES_MAX:-6}
+  /venv/bin/python -m gverif.run "$pid" --tier "${TIER:-quick}" 2>&1 | grep -E "VIOLATION|HARNESS-ERROR|tier=" | head -${LINES_MAX:-6}
 done
 git -C /repo checkout -- .
